@@ -13,7 +13,7 @@ package llrp
 // desc: "-" or hex; fe: "-" or idx.code; pe: "-" or comma-joined levels ptype.code[.idx.fcode];
 // mode: z = response value passed to SendFor is the zero value, s = pre-filled with a sentinel.
 // answer: <cls> <code> <desc> <fe> <pe> <same|changed> <in_code> <in_desc> <in_fe> <in_pe>
-//   cls = nil | status | other | timeout | panic
+//   cls = nil | status | other | timeout | panic | skipped (after 8 timeouts/panics the rest is not run)
 
 import (
 	"context"
@@ -233,12 +233,14 @@ func (s *c12Session) exchange(exp, act MessageType, payload []byte, mode string)
 	if in == nil {
 		return "error: no instance for expected type", false
 	}
+	// the request's own type does not matter to C12. CloseConnection is avoided: after sending it the
+	// client's writer deliberately stops serving further requests.
 	reqT, ok := exp.Converse()
-	if !ok {
+	if !ok || reqT == MsgCloseConnection {
 		reqT = MsgCustomMessage
 	}
 	s.script <- c12Reply{typ: uint16(act), payload: payload}
-	ctx, cancel := context.WithTimeout(context.Background(), 10*time.Second)
+	ctx, cancel := context.WithTimeout(context.Background(), 5*time.Second)
 	var err error
 	panicked := false
 	func() {
@@ -352,6 +354,7 @@ func TestVerifC12(t *testing.T) {
 	defer done()
 	s := c12NewSession()
 	defer func() { s.close() }()
+	nBroken := 0
 	for _, line := range lines {
 		tok := strings.Fields(line)
 		switch {
@@ -391,9 +394,14 @@ func TestVerifC12(t *testing.T) {
 					fmt.Fprintln(w, "error: "+err.Error())
 					continue
 				}
+				if nBroken >= 8 { // do not spend 5 s on each of thousands of exchanges
+					fmt.Fprintln(w, "skipped - - - - same - - - -")
+					continue
+				}
 				ans, broken := s.exchange(MessageType(exp), MessageType(act), payload, mode)
 				fmt.Fprintln(w, ans)
 				if broken { // start over on a fresh connection
+					nBroken++
 					s.close()
 					s = c12NewSession()
 				}
